@@ -319,5 +319,23 @@ func genAcctMod() {
 	}
 	l.p("/-- `validateAccountExpiry` computes `bestHeight + min/maxAccountExpiry` in 64 bits (no uint32 wrap) -/")
 	l.p("def expiryWindowWide : Bool := %s", leanBool(wide))
+	// DepositAccount: is the new value checked against MinAccountValue?
+	dep := findFunc(acct, "manager.DepositAccount")
+	depMin := false
+	if dep == nil {
+		fail("DepositAccount not found")
+	} else {
+		ast.Inspect(dep.Body, func(n ast.Node) bool {
+			if is, ok := n.(*ast.IfStmt); ok {
+				c := canonCmp(is.Cond)
+				if c == "newAccountValue < MinAccountValue" {
+					depMin = true
+				}
+			}
+			return true
+		})
+	}
+	l.p("/-- `DepositAccount` refuses a new value below `MinAccountValue` -/")
+	l.p("def depositChecksMin : Bool := %s", leanBool(depMin))
 	l.p("end Pool.Gen.C07")
 }
